@@ -202,6 +202,24 @@ def l2_l5(prog, ctx):
                 for a in c.call_args():
                     if render(a).startswith("parse_dirs["):
                         elem2 = render(a)
+    if tl is not None and elem2 is None and sh2 is not None and sh2.ok:
+        # the per-layer path prepared beforehand: A[j] = f(parse_dirs[j]) for all j, then A[i] in the scan
+        for c in f.calls():
+            if not c.within(tl):
+                continue
+            for a in c.call_args():
+                a0 = a.strip()
+                if a0.k == "ArraySubscriptExpr" and render(a0.children[1]) == sh2.var and a0.children[0].strip().k == "DeclRefExpr":
+                    arrname = render(a0.children[0])
+                    for lhs, rhs, st, kind in query.stores(f):
+                        l0 = lhs.strip()
+                        if l0.k != "ArraySubscriptExpr" or render(l0.children[0]) != arrname or rhs is None or st.within(tl):
+                            continue
+                        fl = enclosing_loop(st)
+                        shf = loops.for_shape(fl) if fl is not None else None
+                        if shf is not None and loops.covers_range(shf, 0, "parse_dirs_count") and render(l0.children[1]) == shf.var \
+                                and any(render(x) == "parse_dirs[%s]" % shf.var for x in rhs.walk() if x.k == "ArraySubscriptExpr"):
+                            elem2 = "parse_dirs[%s]" % sh2.var
     if sh2 is not None and loops.covers_range(sh2, 0, "parse_dirs_count") and elem2 == "parse_dirs[%s]" % sh2.var:
         ctx.ok("L5", "drop-in layers are visited from the lowest up", tl.where, "%s, layer %s" % (sh2.describe(), elem2))
     elif sh2 is not None and sh2.ok and sh2.step < 0:
